@@ -1069,7 +1069,14 @@ func c14CLI(c *core.Case, o *core.Outcome) {
 			args = append(args, path)
 		}
 		if mode != "file" {
-			args = append(args, pick(r, "verifScenario", "verifScenario", "verifScenario", "missingScenario"))
+			// the scenario argument: right, unknown, missing altogether, or one too many
+			switch sc := pick(r, "verifScenario", "verifScenario", "verifScenario", "missingScenario", "", "verifScenario extra"); sc {
+			case "":
+			case "verifScenario extra":
+				args = append(args, "verifScenario", "extra")
+			default:
+				args = append(args, sc)
+			}
 		}
 		desc := fmt.Sprintf("%v", args)
 		c14Log("cli", desc)
